@@ -1,55 +1,50 @@
 (* C05 - Results depend on the current configuration only, never on call history.
    Models: coq/Model/CacheMachine.v (SLOS deployed state space, iterator cache, Simulator._evolve, MPS bond dimension).
-   sstep R fixA fixB = one public operation of the SLOS engine; (true, true) = the code as it is now (/repo commit
-   1c6530fa), (false, false) = the code before it.  Illegal operations (those that raise) leave the engine unchanged;
-   [photonic] = input states carry at least one photon.
-   The statements about the code before the repairs are kept with the suffix _old_code.
-
-   The full statement WITHOUT [photonic] is false of the current code: C05_slos_vacuum_first_refuted (a vacuum input
-   first under a mask with an explicit n that needs more photons; open finding, replays on /repo). *)
+   sstep R fixA fixB fixC = one public operation of the SLOS engine; (true, true, true) = the code as it is now (/repo
+   commits 1c6530fa = A and B, f2cccc2b = C), (false, false, false) = the code before them.  Illegal operations (those that
+   raise) leave the engine unchanged.  The main statements hold for ALL histories, vacuum inputs included.
+   The statements about the code before the repairs are kept with the suffix _old_code / _before_C. *)
 From PV Require Import Lib.QI Model.CacheMachine Proofs.CacheMachineP.
 
 (* SLOS as it is: after ANY history a query returns what a fresh engine given the final configuration returns *)
 Theorem C05_slos_history_free : forall (R : cring) (h : list (sop R)) (q : squery),
-  Forall (photonic (R:=R)) h ->
-  sobs true true (srun true true h) q = sobs true true (srun true true (scanon (srun true true h))) q.
+  sobs true true true (srun true true true h) q = sobs true true true (srun true true true (scanon (srun true true true h))) q.
 Proof. exact repaired_history_free. Qed.
 Print Assumptions C05_slos_history_free.
 
 (* ... which is the closed form of the configuration, itself a fold of the history's mutators alone *)
 Theorem C05_slos_is_spec : forall (R : cring) (h : list (sop R)) q m U st masks mask_n,
-  Forall (photonic (R:=R)) h -> cfg_fold R h = (Some (m, U), Some st, masks, mask_n) ->
-  sobs true true (srun true true h) q = spec_obs R m U (inst_of masks mask_n (total st)) st q.
+  cfg_fold R h = (Some (m, U), Some st, masks, mask_n) ->
+  sobs true true true (srun true true true h) q = spec_obs R m U (inst_of masks mask_n (total st)) st q.
 Proof. exact repaired_is_spec. Qed.
 Print Assumptions C05_slos_is_spec.
 
 (* the invariant itself: every cached array / path was built for the current configuration *)
-Theorem C05_slos_coherent : forall (R : cring) (h : list (sop R)),
-  Forall (photonic (R:=R)) h -> Inv R (srun true true h).
+Theorem C05_slos_coherent : forall (R : cring) (h : list (sop R)), Inv R (srun true true true h).
 Proof. exact inv_run. Qed.
 Print Assumptions C05_slos_coherent.
 
-(* no level is built over an empty parent level: no native crash in any photonic history *)
-Theorem C05_slos_never_crashes : forall (R : cring) (h : list (sop R)),
-  Forall (photonic (R:=R)) h -> s_dead (srun true true h) = false.
+(* no level is built over an empty parent level: no native crash in any history *)
+Theorem C05_slos_never_crashes : forall (R : cring) (h : list (sop R)), s_dead (srun true true true h) = false.
 Proof. exact repaired_never_crashes. Qed.
 Print Assumptions C05_slos_never_crashes.
 
 (* ... and the native layer is never asked for an FSMap over a chain of levels that is not closed under removing a
    photon (the domain on which the machine's coefficients are the native ones) *)
 Theorem C05_slos_chain_closed : forall (R : cring) (h : list (sop R)) st m U,
-  Forall (photonic (R:=R)) h -> s_in (srun true true h) = Some st -> s_circ (srun true true h) = Some (m, U) ->
-  chain_closed m (firstn (S (total st)) (s_lv (srun true true h))) = true.
+  s_in (srun true true true h) = Some st -> s_circ (srun true true true h) = Some (m, U) ->
+  chain_closed m (firstn (S (total st)) (s_lv (srun true true true h))) = true.
 Proof. exact repaired_chain_closed. Qed.
 Print Assumptions C05_slos_chain_closed.
 
-(* outside [photonic], the code as it is now: vacuum input first under mask '2*' with n = 1, then |1,0>: crash;
-   a fresh engine given the final configuration does not *)
-Theorem C05_slos_vacuum_first_refuted :
-  s_dead (srun (R:=QI) true true w_vacuum) = true /\
-  s_dead (srun (R:=QI) true true (scanon (srun true true w_vacuum))) = false.
-Proof. exact current_vacuum_first_refuted. Qed.
-Print Assumptions C05_slos_vacuum_first_refuted.
+(* the code between 1c6530fa and f2cccc2b (A and B without C): vacuum input first under mask '2*' with n = 1, then |1,0>:
+   crash, a fresh engine given the final configuration did not; with C (now) the same history does not crash *)
+Theorem C05_slos_vacuum_first_refuted_before_C :
+  s_dead (srun (R:=QI) true true false w_vacuum) = true /\
+  s_dead (srun (R:=QI) true true false (scanon (srun true true false w_vacuum))) = false /\
+  s_dead (srun (R:=QI) true true true w_vacuum) = false.
+Proof. exact vacuum_first_refuted_before_C. Qed.
+Print Assumptions C05_slos_vacuum_first_refuted_before_C.
 
 (* the code before 1c6530fa: four witnesses *)
 Theorem C05_slos_refuted_old_code :
@@ -58,18 +53,18 @@ Theorem C05_slos_refuted_old_code :
   differs_from_fresh w_growth (QAmp [1; 1]%nat) = true /\ differs_from_fresh w_growth QDist = true /\
   differs_from_fresh w_shrink QDist = true /\ differs_from_fresh w_shrink (QAmp [0; 1]%nat) = true /\
   differs_from_fresh w_remask QDist = true /\
-  s_dead (srun (R:=QI) false false w_crash) = true /\
-  s_dead (srun (R:=QI) false false (scanon (srun false false w_crash))) = false.
+  s_dead (srun (R:=QI) false false false w_crash) = true /\
+  s_dead (srun (R:=QI) false false false (scanon (srun false false false w_crash))) = false.
 Proof. exact faithful_refuted. Qed.
 Print Assumptions C05_slos_refuted_old_code.
 Theorem C05_slos_refuted_neq_old_code : exists (h : list (sop QI)) q, Forall (photonic (R:=QI)) h /\
-  sobs false false (srun false false h) q <> sobs false false (srun false false (scanon (srun false false h))) q.
+  sobs false false false (srun false false false h) q <> sobs false false false (srun false false false (scanon (srun false false false h))) q.
 Proof. exact faithful_refuted_neq. Qed.
 Print Assumptions C05_slos_refuted_neq_old_code.
-(* the code before 1c6530fa was already history-free on histories without set_mask / clear_mask *)
+(* the code before 1c6530fa was already history-free on histories without set_mask / clear_mask and without vacuum inputs *)
 Theorem C05_slos_no_mask_old_code : forall (R : cring) (h : list (sop R)) q,
   Forall (no_mask_op R) h -> Forall (photonic (R:=R)) h ->
-  sobs false false (srun false false h) q = sobs false false (srun false false (scanon (srun false false h))) q.
+  sobs false false false (srun false false false h) q = sobs false false false (srun false false false (scanon (srun false false false h))) q.
 Proof. exact faithful_no_mask_history_free. Qed.
 Print Assumptions C05_slos_no_mask_old_code.
 Example C05_no_mask_hypotheses_satisfiable : exists h : list (sop QI),
